@@ -150,6 +150,9 @@ type session struct {
 	accTot   int
 
 	degraded int       // overlap rounds in which an offer did not show up at its pause in time
+	// evicts: the store is a cache (memory.NewCache): it drops accepted blobs again by its documented
+	// LRU rule, so an accepted blob may be absent later; what IS there is judged as everywhere else
+	evicts bool
 	opt      scriptOpt // family-specific shape of the offer script (zero value: the normal session)
 
 	rec     sessRec
@@ -185,12 +188,17 @@ func newSession(r *ev.Run, root, id string, spec *sto.Spec, path string) (*sessi
 	if err != nil {
 		return nil, err
 	}
-	b, err := sto.Build(&sto.Env{Dir: dir}, spec)
+	var b *sto.Built
+	if spec.Kind == "memcache" {
+		b = &sto.Built{Spec: spec, S: newMemCache(spec), Caps: sto.Caps{Receive: true, Remove: true, SubFetch: true}}
+	} else {
+		b, err = sto.Build(&sto.Env{Dir: dir}, spec)
+	}
 	if err != nil {
 		os.RemoveAll(dir)
 		return nil, fmt.Errorf("build %s: %w", spec, err)
 	}
-	s := &session{r: r, id: id, spec: spec, label: labelOf(spec), path: path, dir: dir, b: b,
+	s := &session{evicts: spec.Kind == "memcache",r: r, id: id, spec: spec, label: labelOf(spec), path: path, dir: dir, b: b,
 		rng:    r.Rand("session/" + id + "/" + spec.String() + "/" + path),
 		stored: map[blob.Ref][]byte{}, rejNever: map[blob.Ref]bool{}, accepted: map[blob.Ref]int{}, broken: map[blob.Ref]bool{}}
 	s.rec = sessRec{CaseID: id + ";", Backend: spec.String(), Path: path}
@@ -379,6 +387,25 @@ func (s *session) judge(of *offer, out outcome, hookBefore int, a *attemptRec) {
 	r.Note("mutations", of.Mut)
 	r.Note("path_mutation", s.path+"/"+of.Mut)
 	r.Note("path_backend", s.site())
+	if s.evicts {
+		r.Note("cache_mode", s.path+"/"+of.Mut)
+		r.Count("cache_mode_attempts", 1)
+		if of.Want == wantReject && of.Ref.Valid() && of.Mut != "read-error" {
+			if n := s.spec.P["n"].(int); n > 0 && len(of.Data) > n {
+				r.Note("cache_mode_corrupt_vs_budget", s.path+"/offer>budget")
+			} else {
+				r.Note("cache_mode_corrupt_vs_budget", s.path+"/offer<=budget")
+			}
+		}
+	}
+	if s.path == "nohash" {
+		r.Note("nohash", s.spec.Kind+"/"+of.Mut)
+	}
+	if of.UH != "" {
+		r.Note("unknown_hash", s.path+"/"+of.UH)
+		r.Note("unknown_hash_backends", s.spec.Kind+"/"+of.UH)
+		r.Count("unknown_hash_attempts", 1)
+	}
 	if s.opt.family != "" {
 		r.Note(s.opt.family, s.spec.Kind+"/"+s.path+"/"+of.Mut)
 		r.Count(s.opt.family+"_attempts", 1)
@@ -450,14 +477,24 @@ func (s *session) judge(of *offer, out outcome, hookBefore int, a *attemptRec) {
 		} else {
 			if s.broken[of.Ref] {
 				// already reported when it was first accepted
+			} else if s.evicts && !f.present && f.err == nil {
+				// a cache may have dropped the blob again (it does so at once when the blob is bigger than itself)
+				r.Note("observations", "cache-evicted-after-accept")
+				r.Note("cache_mode_valid", "dropped")
+				r.Count("cache_evicted_after_accept", 1)
 			} else if !f.present || !bytes.Equal(f.data, of.Data) || int(f.size) != len(of.Data) {
 				s.broken[of.Ref] = true
 				s.viol("accepted-not-stored/"+s.site(), "offer %s (%d bytes) was accepted, but fetch gives present=%v, %d bytes (size %d), err=%v",
 					of.RefStr, len(of.Data), f.present, len(f.data), f.size, f.err)
 			}
+			if s.evicts && f.present {
+				r.Note("cache_mode_valid", "kept")
+			}
 			s.stored[of.Ref] = of.Data
 			delete(s.rejNever, of.Ref)
-			if sz, ok, err := statFrom(st, of.Ref); err != nil || !ok || int(sz) != len(of.Data) {
+			if sz, ok, err := statFrom(st, of.Ref); s.evicts && err == nil && !ok && !f.present {
+				// evicted, see above
+			} else if err != nil || !ok || int(sz) != len(of.Data) {
 				s.viol("accepted-not-stored/"+s.site(), "offer %s (%d bytes) was accepted, but stat gives present=%v size=%d err=%v", of.RefStr, len(of.Data), ok, sz, err)
 			}
 			r.Eval(1)
@@ -485,7 +522,9 @@ func (s *session) judge(of *offer, out outcome, hookBefore int, a *attemptRec) {
 			r.Eval(1)
 			if orig, ok := s.stored[of.Ref]; ok {
 				// a corrupt re-upload of a stored blob must leave the stored bytes alone
-				if !s.broken[of.Ref] && (!f.present || !bytes.Equal(f.data, orig)) {
+				if s.evicts && !f.present && f.err == nil {
+					r.Note("observations", "cache-evicted-before-reject")
+				} else if !s.broken[of.Ref] && (!f.present || !bytes.Equal(f.data, orig)) {
 					s.viol("trace-after-reject/overwrite/"+s.site(), "after the rejected offer (%s %s) under stored ref %s, fetch gives present=%v %d bytes (err=%v) instead of the %d stored bytes",
 						of.Mut, of.Arg, of.RefStr, f.present, len(f.data), f.err, len(orig))
 				}
@@ -534,7 +573,7 @@ func (s *session) rejectClass(of *offer, out outcome) {
 				s.viol("wrong-reject-class/"+s.site(), "offer %s (%s %s) does not hash to its ref; blobserver.Receive must fail with ErrCorruptBlob, got: %v", of.RefStr, of.Mut, of.Arg, out.err)
 			}
 		}
-	case "direct", "direct-src":
+	case "direct", "direct-src", "nohash":
 		switch {
 		case errors.Is(out.err, blobserver.ErrCorruptBlob):
 			r.Note("reject_classes", s.path+":ErrCorruptBlob")
@@ -595,7 +634,7 @@ func (s *session) checkEnumeration(view string, st blobserver.Storage, lastRejec
 		}
 	}
 	for ref := range s.stored {
-		if _, ok := got[ref]; !ok {
+		if _, ok := got[ref]; !ok && !s.evicts {
 			s.viol("accepted-not-stored/"+s.site(), "%s: accepted blob %v is missing from the enumeration (after a %s)", view, ref, map[bool]string{true: "rejected offer", false: "accepted offer"}[lastRejected])
 			return
 		}
